@@ -15,6 +15,8 @@ import (
 	"net/http/httptest"
 	"strings"
 	"sync"
+	"testing"
+	"testing/synctest"
 
 	"github.com/ipfs/go-cid"
 	"github.com/ipld/go-ipld-prime"
@@ -635,4 +637,62 @@ func (w *World) Ctx() (context.Context, context.CancelFunc) {
 	ctx, cancel := context.WithCancel(context.Background())
 	w.CancelCaller = cancel
 	return ctx, cancel
+}
+
+// Bubble runs f in a synctest bubble. If the bubble ends with goroutines still
+// blocked (a leak), synctest panics on the calling goroutine; the panic text is
+// returned instead of taking the test binary down, so that the harness can
+// classify it. Any other panic is re-raised.
+func Bubble(t *testing.T, f func(t *testing.T)) (leak string) {
+	defer func() {
+		if e := recover(); e != nil {
+			s := fmt.Sprint(e)
+			if strings.Contains(s, "blocked goroutines remain") || strings.Contains(s, "deadlock") {
+				leak = s
+				return
+			}
+			panic(e)
+		}
+	}()
+	synctest.Test(t, f)
+	return ""
+}
+
+// Listener wraps an OnSyncFinished registration: Stop cancels it and drains
+// the channel until it is closed, so that no queue goroutine is left behind.
+type Listener struct {
+	C      <-chan dagsync.SyncFinished
+	cancel context.CancelFunc
+}
+
+// Listen registers a listener on the subscriber.
+func (w *World) Listen() *Listener {
+	c, cancel := w.Sub.OnSyncFinished()
+	return &Listener{C: c, cancel: cancel}
+}
+
+// Poll returns the events available now without blocking.
+func (l *Listener) Poll() []dagsync.SyncFinished {
+	var out []dagsync.SyncFinished
+	for {
+		select {
+		case ev, ok := <-l.C:
+			if !ok {
+				return out
+			}
+			out = append(out, ev)
+		default:
+			return out
+		}
+	}
+}
+
+// Stop cancels the registration and drains the channel until closed.
+func (l *Listener) Stop() []dagsync.SyncFinished {
+	l.cancel()
+	var out []dagsync.SyncFinished
+	for ev := range l.C {
+		out = append(out, ev)
+	}
+	return out
 }
